@@ -565,3 +565,333 @@ REG.spec(_FRAG + '#place',
     },
     opts   = dict(merge='scalars'),
     serves = ['C04'])
+
+
+# ------------------------------------------------------------------------------
+# _schedule_waitpool: waiting tasks are re-tried, highest priority first
+#
+# ru.lazy_bisect(data, check=self._try_allocation, ..) belongs to radical.utils
+# (a dependency): ASSUMED CONTRACT (A13) - it calls check at most once per element
+# of data and nothing else that touches the scheduler, and returns three lists
+# that partition data: those check accepted, those it refused or that were
+# skipped, and those on which it raised (with the message).  The effect below
+# composes the *verified* contract of _try_allocation over such a sequence of
+# calls (induction over the calls: every call keeps the occupancy invariant,
+# every accepted call counts one active task and attaches a placement, refused
+# and skipped tasks are unchanged, a raising call takes nothing).
+Failed = T.List(T.Tuple(ATask, T.Str))
+
+def _lazy_bisect(ex, node, st):
+    data = ex.ev(node.args[0], st)
+    kw = {k.arg: k.value for k in node.keywords}
+    chk = kw.get('check')
+    if not (isinstance(chk, __import__('ast').Attribute) and chk.attr == '_try_allocation'):
+        raise C.OutsideSubset('lazy_bisect with a check other than self._try_allocation')
+    lty = data.ty
+    n = lty.len(data.term)
+    ety = lty.elem
+    sub = st.fork(); sub.env = dict(st.env); sub.env['data_'] = data
+    # preconditions of _try_allocation for every element (call-pre obligations)
+    for name, text in (('occupancy-invariant', ' and '.join(_place_inv)),
+                       ('requests-are-valid', 'forall(lambda k: implies(0 <= k < len(data_), task_ok(data_[k])))')):
+        ex.oblige(st, 'call:lazy_bisect(_try_allocation)/%s@L%s' % (name, ex.cur_line), ex.spec_bool(text, sub), 'call-pre', note=text)
+    good = ex.fresh_wf(st, lty, 'bulk_good')
+    bad  = ex.fresh_wf(st, lty, 'bulk_bad')
+    fail = ex.fresh_wf(st, Failed, 'bulk_fail')
+    cls  = z3.Function(C.fresh_name('bcls'), z3.IntSort(), z3.IntSort())   # index in data -> 0 good 1 bad 2 fail
+    pos  = z3.Function(C.fresh_name('bpos'), z3.IntSort(), z3.IntSort())   # index in data -> index in its list
+    sg   = z3.Function(C.fresh_name('bsg'), z3.IntSort(), z3.IntSort())    # index in good -> index in data
+    sb   = z3.Function(C.fresh_name('bsb'), z3.IntSort(), z3.IntSort())
+    sf   = z3.Function(C.fresh_name('bsf'), z3.IntSort(), z3.IntSort())
+    i = z3.Int(C.fresh_name('bi'))
+    D  = lambda x: z3.Select(lty.arr(data.term), x)
+    G  = lambda x: z3.Select(lty.arr(good.term), x)
+    B  = lambda x: z3.Select(lty.arr(bad.term), x)
+    FT = Failed.elem
+    F  = lambda x: FT.get(z3.Select(Failed.arr(fail.term), x), 0)
+    ng, nb, nf = lty.len(good.term), lty.len(bad.term), Failed.len(fail.term)
+    g = lambda t, f: ety.get(t, f)
+    slots_ty = ety.fields['slots']
+    same_req = lambda a, b: z3.And(g(a, 'uid') == g(b, 'uid'), g(a, 'description') == g(b, 'description'),
+                                   g(a, 'state') == g(b, 'state'), g(a, 'tuple_size') == g(b, 'tuple_size'))
+    st.assume(ng + nb + nf == n)
+    st.assume(z3.ForAll([i], z3.Implies(z3.And(0 <= i, i < n), z3.And(
+        0 <= cls(i), cls(i) <= 2, 0 <= pos(i),
+        z3.Implies(cls(i) == 0, z3.And(pos(i) < ng, sg(pos(i)) == i)),
+        z3.Implies(cls(i) == 1, z3.And(pos(i) < nb, sb(pos(i)) == i)),
+        z3.Implies(cls(i) == 2, z3.And(pos(i) < nf, sf(pos(i)) == i)))), patterns=[D(i)]))
+    st.assume(z3.ForAll([i], z3.Implies(z3.And(0 <= i, i < ng), z3.And(
+        0 <= sg(i), sg(i) < n, cls(sg(i)) == 0, pos(sg(i)) == i, same_req(G(i), D(sg(i))),
+        slots_ty.is_some(g(G(i), 'slots')))), patterns=[G(i)]))
+    st.assume(z3.ForAll([i], z3.Implies(z3.And(0 <= i, i < nb), z3.And(
+        0 <= sb(i), sb(i) < n, cls(sb(i)) == 1, pos(sb(i)) == i, B(i) == D(sb(i)))), patterns=[B(i)]))
+    st.assume(z3.ForAll([i], z3.Implies(z3.And(0 <= i, i < nf), z3.And(
+        0 <= sf(i), sf(i) < n, cls(sf(i)) == 2, pos(sf(i)) == i, same_req(F(i), D(sf(i))),
+        g(F(i), 'slots') == g(D(sf(i)), 'slots'))), patterns=[F(i)]))
+    # forward reading of the same partition (a consequence of the facts above:
+    # sg(pos(i)) == i): where element i of data went
+    st.assume(z3.ForAll([i], z3.Implies(z3.And(0 <= i, i < n), z3.And(
+        z3.Implies(cls(i) == 0, same_req(G(pos(i)), D(i))),
+        z3.Implies(cls(i) == 1, B(pos(i)) == D(i)),
+        z3.Implies(cls(i) == 2, same_req(F(pos(i)), D(i))))), patterns=[D(i)]))
+    # consequences of the partition for distinct uids (derivable from the facts
+    # above: the source maps are injective): stated to spare the solver the chain
+    j = z3.Int(C.fresh_name('bj'))
+    uid = lambda t: g(t, 'uid')
+    din = z3.ForAll([i, j], z3.Implies(z3.And(0 <= i, i < j, j < n), uid(D(i)) != uid(D(j))))
+    ex.oblige(st, 'call:lazy_bisect(_try_allocation)/distinct-uids@L%s' % ex.cur_line, din, 'call-pre',
+              note='the tasks handed to lazy_bisect have distinct uids')
+    st.assume(din)
+    for (X, nx), (Y, ny), same in (((G, ng), (G, ng), True), ((B, nb), (B, nb), True), ((F, nf), (F, nf), True),
+                                   ((G, ng), (B, nb), False), ((G, ng), (F, nf), False), ((B, nb), (F, nf), False)):
+        rng = z3.And(0 <= i, i < j, j < ny) if same else z3.And(0 <= i, i < nx, 0 <= j, j < ny)
+        st.assume(z3.ForAll([i, j], z3.Implies(rng, uid(X(i)) != uid(Y(j))), patterns=[z3.MultiPattern(X(i), Y(j))]))
+    # the scheduler state after the calls
+    for root in ('self.nodes', 'self._colo_history', 'self._tagged_nodes', 'self._node_offset'):
+        old = ex.get_var(st, root)
+        st.env[root] = ex.fresh_wf(st, old.ty, root.replace('.', '_'))
+    cnt = ex.get_var(st, 'self._active_cnt')
+    st.env['self._active_cnt'] = Val(T.Int, cnt.term + ng)
+    st.assume(ex.spec_bool(' and '.join(_place_inv), st))
+    log = ex.get_var(st, 'tried')
+    ll = log.ty.len(log.term)
+    prio = ex.get_var(st, 'priority')
+    st.env['tried'] = Val(log.ty, log.ty.mk(z3.Store(log.ty.arr(log.term), ll, prio.term), ll + 1))
+    return PyTuple([good, bad, fail])
+_lazy_bisect.mutates = ('self.nodes', 'self._colo_history', 'self._tagged_nodes', 'self._node_offset', 'self._active_cnt', 'tried')
+
+
+def _note_test(ex, node, st):
+    """ghost code after `to_test.append(task)` / `to_wait.append(task)`: position maps"""
+    call = node.value
+    lst  = ex.ev(call.func.value, st)
+    task = ex.ev(call.args[0], st)
+    g    = 'tpos' if call.func.value.id == 'to_test' else 'wpos'
+    m    = ex.get_var(st, g)
+    uid  = task.ty.get(task.term, 'uid')
+    st.env[g] = Val(m.ty, m.ty.mk(z3.Store(m.ty.val(m.term), uid, lst.ty.len(lst.term) - 1), m.ty.dom(m.term)))
+    e = ex.get_var(st, 'elig')
+    st.env['elig'] = Val(e.ty, z3.Store(e.term, uid, z3.BoolVal(g == 'tpos')))
+_note_test.mutates = ('tpos', 'wpos', 'elig')
+
+def _str_replace(ex, node, st):
+    for a in node.args: ex.ev(a, st)
+    return fresh(T.Str, 'replaced')
+_str_replace.mutates = ()
+
+REG.define('still_waits(t, p, wp, fate)',
+    'inpool(wp, p, t.uid) and at(fate, t.uid) == F_NONE and at(at(wp, p), t.uid).description == t.description and '
+    'at(at(wp, p), t.uid).state == t.state')
+REG.define('left_pool(t, wp, fate)',
+    '(at(fate, t.uid) == F_STARTED or at(fate, t.uid) == F_FAILED) and nowhere(wp, t.uid)')
+REG.define('P0()', 'at(at_head("1", self._waitpool), priority)')
+REG.define('pool_ok(wp)',
+    'forall(lambda p, u: implies(inpool(wp, p, u), task_ok(at(at(wp, p), u)) and at(at(wp, p), u).tuple_size is not None and '
+    'at(at(wp, p), u).state is not None), Int, Str)')
+
+_wp_self = dict(_place_self)
+_wp_self.update(_waitpool=WPool)
+
+REG.spec('agent/scheduler/base.py:AgentSchedulingComponent._schedule_waitpool',
+    params   = dict(),
+    self     = _wp_self,
+    returns  = T.Tuple(T.Bool, T.Bool),
+    ghost    = dict(fate=Fate, n_started=T.Int, tpos=_IdxMap, wpos=_IdxMap, tried=T.List(T.Int), elig=T.Set(T.Str)),
+    locals   = dict(to_wait=ATaskL, to_test=ATaskL, pool=Pool, named_env=OStr, active=T.Bool, resources=T.Bool,
+                    scheduled=ATaskL, unscheduled=ATaskL, failed=Failed, td=T.Any, error=T.Str),
+    calls    = {'ru.lazy_bisect': _lazy_bisect,
+                'self._fail_task': 'agent/scheduler/base.py:AgentSchedulingComponent._fail_task'},
+    effects  = {'self.advance': _s_advance_cnt, 'error.replace': _str_replace},
+    stmt_ghost = {'to_test.append(task)': _note_test, 'to_wait.append(task)': _note_test},
+    # intermediate facts about the pool of the current priority (P0: that pool as
+    # it was at the head of this iteration); each is proved where it stands
+    cuts = {
+      'to_test.sort(': [
+        ('sorted-candidates-are-pool-members',
+         'forall(lambda m: implies(0 <= m < len(to_test), indom(P0(), to_test[m].uid) and at(P0(), to_test[m].uid) == to_test[m] and '
+         'not needs_env(to_test[m], self._named_envs) and to_test[m].uid in elig))'),
+        ('every-eligible-pool-member-is-a-candidate',
+         'forall(lambda u: implies(indom(P0(), u) and not needs_env(at(P0(), u), self._named_envs), has_uid(to_test, u)), Str)'),
+        ('candidates-are-distinct', 'forall(lambda a, b: implies(0 <= a < b < len(to_test), to_test[a].uid != to_test[b].uid))'),
+        ('set-aside-are-pool-members',
+         'forall(lambda m: implies(0 <= m < len(to_wait), indom(P0(), to_wait[m].uid) and at(P0(), to_wait[m].uid) == to_wait[m] and '
+         'needs_env(to_wait[m], self._named_envs) and to_wait[m].uid not in elig))'),
+        ('every-ineligible-pool-member-is-set-aside',
+         'forall(lambda u: implies(indom(P0(), u) and needs_env(at(P0(), u), self._named_envs), has_uid(to_wait, u)), Str)'),
+      ],
+      'scheduled, unscheduled, failed = ru.lazy_bisect(': [
+        ('every-candidate-is-in-one-of-the-three-lists',
+         'forall(lambda u: implies(indom(P0(), u) and not needs_env(at(P0(), u), self._named_envs), '
+         'has_uid(scheduled, u) or has_uid(unscheduled, u) or exists(lambda m: 0 <= m < len(failed) and failed[m][0].uid == u)), Str)'),
+        ('refused-candidates-are-unchanged-pool-members',
+         'forall(lambda m: implies(0 <= m < len(unscheduled), indom(P0(), unscheduled[m].uid) and at(P0(), unscheduled[m].uid) == unscheduled[m] '
+         'and not needs_env(unscheduled[m], self._named_envs)))'),
+        ('started-and-failed-are-eligible-pool-members',
+         'forall(lambda k: implies(0 <= k < len(scheduled), indom(P0(), scheduled[k].uid) and '
+         'at(P0(), scheduled[k].uid).description == scheduled[k].description and scheduled[k].uid in elig)) and '
+         'forall(lambda k: implies(0 <= k < len(failed), indom(P0(), failed[k][0].uid) and '
+         'at(P0(), failed[k][0].uid).description == failed[k][0].description and failed[k][0].uid in elig))'),
+        ('started-and-failed-are-not-set-aside',
+         'forall(lambda k, m: implies(0 <= k < len(scheduled) and 0 <= m < len(to_wait), scheduled[k].uid != to_wait[m].uid)) and '
+         'forall(lambda k, m: implies(0 <= k < len(failed) and 0 <= m < len(to_wait), failed[k][0].uid != to_wait[m].uid))'),
+        ('started-and-failed-candidates-are-pool-members',
+         'forall(lambda m: implies(0 <= m < len(scheduled), indom(P0(), scheduled[m].uid) and scheduled[m].slots is not None)) and '
+         'forall(lambda m: implies(0 <= m < len(failed), indom(P0(), failed[m][0].uid)))'),
+      ],
+      "self._waitpool[priority] = {task['uid']: task": [
+        ('new-pool-holds-only-old-members-unchanged',
+         'forall(lambda u: implies(indom(at(self._waitpool, priority), u), indom(P0(), u) and at(at(self._waitpool, priority), u) == at(P0(), u)), Str)'),
+        ('set-aside-and-refused-stay',
+         'forall(lambda m: implies(0 <= m < len(to_wait), indom(at(self._waitpool, priority), to_wait[m].uid))) and '
+         'forall(lambda m: implies(0 <= m < len(unscheduled), indom(at(self._waitpool, priority), unscheduled[m].uid)))'),
+        ('started-and-failed-leave',
+         'forall(lambda m: implies(0 <= m < len(scheduled), not indom(at(self._waitpool, priority), scheduled[m].uid))) and '
+         'forall(lambda m: implies(0 <= m < len(failed), not indom(at(self._waitpool, priority), failed[m][0].uid)))'),
+        ('other-pools-untouched',
+         'forall(lambda p: implies(p != priority, at(self._waitpool, p) == at(at_head("1", self._waitpool), p)), Int) and '
+         'forall(lambda p: indom(self._waitpool, p) == indom(at_head("1", self._waitpool), p), Int)'),
+      ],
+      'resources = resources and not': [
+        ('set-aside-still-wait',
+         'forall(lambda m: implies(0 <= m < len(to_wait), at(fate, to_wait[m].uid) == F_NONE and '
+         'indom(at(self._waitpool, priority), to_wait[m].uid) and at(at(self._waitpool, priority), to_wait[m].uid) == to_wait[m]))'),
+        ('refused-still-wait',
+         'forall(lambda m: implies(0 <= m < len(unscheduled), at(fate, unscheduled[m].uid) == F_NONE and '
+         'indom(at(self._waitpool, priority), unscheduled[m].uid) and at(at(self._waitpool, priority), unscheduled[m].uid) == unscheduled[m]))'),
+        ('started-are-reported-and-gone',
+         'forall(lambda m: implies(0 <= m < len(scheduled), at(fate, scheduled[m].uid) == F_STARTED and nowhere(self._waitpool, scheduled[m].uid)))'),
+        ('failed-are-reported-and-gone',
+         'forall(lambda m: implies(0 <= m < len(failed), at(fate, failed[m][0].uid) == F_FAILED and nowhere(self._waitpool, failed[m][0].uid)))'),
+        ('ineligible-members-of-this-pool-still-wait',
+         'forall(lambda u: implies(indom(P0(), u) and needs_env(at(P0(), u), self._named_envs), '
+         'still_waits(at(P0(), u), priority, self._waitpool, fate)), Str)'),
+        ('eligible-members-of-this-pool-wait-or-left',
+         'forall(lambda u: implies(indom(P0(), u) and not needs_env(at(P0(), u), self._named_envs), '
+         'still_waits(at(P0(), u), priority, self._waitpool, fate) or left_pool(at(P0(), u), self._waitpool, fate)), Str)'),
+        ('this-pool-is-settled-with-respect-to-the-entry-state',
+         'forall(lambda u: implies(inpool(old(self._waitpool), priority, u), '
+         'still_waits(at(at(old(self._waitpool), priority), u), priority, self._waitpool, fate) or '
+         'left_pool(at(at(old(self._waitpool), priority), u), self._waitpool, fate)), Str)'),
+        ('earlier-pools-stay-settled',
+         'forall(lambda j, u: implies(0 <= j < i_priority and inpool(old(self._waitpool), seq_priority[j], u), '
+         'still_waits(at(at(old(self._waitpool), seq_priority[j]), u), seq_priority[j], self._waitpool, fate) or '
+         'left_pool(at(at(old(self._waitpool), seq_priority[j]), u), self._waitpool, fate)), Int, Str)'),
+      ],
+    },
+    requires = _place_inv + ['wp_inv(self._waitpool, fate)', 'pool_ok(self._waitpool)', 'len(tried) == 0'],
+    modifies = _place_mods + ['self._waitpool', 'fate', 'n_started', 'tpos', 'wpos', 'tried', 'elig'],
+    raises   = {},
+    no_raise_is_property = True,
+    ensures  = [
+      ('occupancy-invariant-kept', ' and '.join(_place_inv)),
+      ('pool-invariant-kept', 'wp_inv(self._waitpool, fate) and pool_ok(self._waitpool)'),
+      ('every-started-task-is-counted-as-active',
+       'self._active_cnt - old(self._active_cnt) == n_started - old(n_started) and n_started >= old(n_started)'),
+      ('each-waiting-task-keeps-waiting-or-is-started-or-failed',
+       'forall(lambda p, u: implies(inpool(old(self._waitpool), p, u), '
+       'still_waits(at(at(old(self._waitpool), p), u), p, self._waitpool, fate) or '
+       'left_pool(at(at(old(self._waitpool), p), u), self._waitpool, fate)), Int, Str)'),
+      ('nothing-enters-the-pool',
+       'forall(lambda p, u: implies(inpool(self._waitpool, p, u), inpool(old(self._waitpool), p, u)), Int, Str)'),
+      ('nobody-else-is-reported',
+       'forall(lambda u: implies(at(fate, u) != at(old(fate), u), exists(lambda p: inpool(old(self._waitpool), p, u), Int)), Str)'),
+      ('higher-priority-pools-are-tried-first', 'forall(lambda a, b: implies(0 <= a < b < len(tried), tried[a] > tried[b]))'),
+      ('activity-flag-tells-whether-something-started', 'result[1] == (n_started > old(n_started))'),
+    ],
+    loops = {
+      '1': _place_inv + ['wp_inv(self._waitpool, fate)', 'pool_ok(self._waitpool)',
+            'self._active_cnt - old(self._active_cnt) == n_started - old(n_started) and n_started >= old(n_started)',
+            'active == (n_started > old(n_started))',
+            'forall(lambda p: indom(self._waitpool, p) == indom(old(self._waitpool), p), Int)',
+            'forall(lambda j, u: implies(i_priority <= j < len(seq_priority), '
+            'indom(at(self._waitpool, seq_priority[j]), u) == indom(at(old(self._waitpool), seq_priority[j]), u) and '
+            'implies(indom(at(self._waitpool, seq_priority[j]), u), at(at(self._waitpool, seq_priority[j]), u) == at(at(old(self._waitpool), seq_priority[j]), u))), Int, Str)',
+            'forall(lambda j, u: implies(0 <= j < i_priority and inpool(old(self._waitpool), seq_priority[j], u), '
+            'still_waits(at(at(old(self._waitpool), seq_priority[j]), u), seq_priority[j], self._waitpool, fate) or '
+            'left_pool(at(at(old(self._waitpool), seq_priority[j]), u), self._waitpool, fate)), Int, Str)',
+            'forall(lambda p, u: implies(inpool(self._waitpool, p, u), inpool(old(self._waitpool), p, u)), Int, Str)',
+            'forall(lambda u: implies(at(fate, u) != at(old(fate), u), '
+            'exists(lambda j: 0 <= j < i_priority and inpool(old(self._waitpool), seq_priority[j], u))), Str)',
+            'forall(lambda a, b: implies(0 <= a < b < len(tried), tried[a] > tried[b]))',
+            'forall(lambda a, j: implies(0 <= a < len(tried) and i_priority <= j < len(seq_priority), tried[a] > seq_priority[j]))'],
+      '1.1': ['self._waitpool == at_head("1", self._waitpool)', 'same_fate(fate, at_head("1", fate))',
+              'pool == at(self._waitpool, priority)', 'len(to_test) + len(to_wait) == i_task',
+              'forall(lambda j: implies(0 <= j < i_task, ite(needs_env(at(pool, keys_task[j]), self._named_envs), '
+              'is_at(to_wait, at(wpos, keys_task[j]), keys_task[j]) and to_wait[at(wpos, keys_task[j])] == at(pool, keys_task[j]), '
+              'is_at(to_test, at(tpos, keys_task[j]), keys_task[j]) and to_test[at(tpos, keys_task[j])] == at(pool, keys_task[j]))))',
+              'forall(lambda m: implies(0 <= m < len(to_test), indom(pool, to_test[m].uid) and at(pool, to_test[m].uid) == to_test[m] and '
+              'at(tpos, to_test[m].uid) == m and not needs_env(to_test[m], self._named_envs) and to_test[m].uid in elig and '
+              'exists(lambda j: 0 <= j < i_task and keys_task[j] == to_test[m].uid)))',
+              'forall(lambda m: implies(0 <= m < len(to_wait), indom(pool, to_wait[m].uid) and at(pool, to_wait[m].uid) == to_wait[m] and '
+              'at(wpos, to_wait[m].uid) == m and needs_env(to_wait[m], self._named_envs) and to_wait[m].uid not in elig and '
+              'exists(lambda j: 0 <= j < i_task and keys_task[j] == to_wait[m].uid)))'],
+      '1.2': ['failed == at_entry("1.2", failed)', 'self._waitpool == at_entry("1.2", self._waitpool)', 'self.nodes == at_entry("1.2", self.nodes)',
+              'self._active_cnt == at_entry("1.2", self._active_cnt)', 'self._node_offset == at_entry("1.2", self._node_offset)',
+              'n_started == at_entry("1.2", n_started)', 'tried == at_entry("1.2", tried)', 'active == at_entry("1.2", active)',
+              'resources == at_entry("1.2", resources)',
+              'scheduled == at_entry("1.2", scheduled)', 'unscheduled == at_entry("1.2", unscheduled)', 'to_wait == at_entry("1.2", to_wait)',
+              'forall(lambda m: implies(0 <= m < i_error, at(fate, failed[m][0].uid) == F_FAILED))',
+              'forall(lambda m: implies(i_error <= m < len(failed), at(fate, failed[m][0].uid) == F_NONE))',
+              'forall(lambda a, b: implies(0 <= a < b < len(failed), failed[a][0].uid != failed[b][0].uid))',
+              'forall(lambda k: implies(0 <= k < len(scheduled), at(fate, scheduled[k].uid) == F_NONE))',
+              'forall(lambda k, m: implies(0 <= k < len(scheduled) and 0 <= m < len(failed), scheduled[k].uid != failed[m][0].uid))',
+              'forall(lambda u: implies(at(fate, u) != at(at_entry("1.2", fate), u), '
+              'exists(lambda m: 0 <= m < i_error and failed[m][0].uid == u)), Str)'],
+      '1.3': ['self._waitpool == at_entry("1.3", self._waitpool)', 'self.nodes == at_entry("1.3", self.nodes)',
+              'self._active_cnt == at_entry("1.3", self._active_cnt)', 'self._node_offset == at_entry("1.3", self._node_offset)',
+              'n_started == at_entry("1.3", n_started)', 'tried == at_entry("1.3", tried)', 'active == at_entry("1.3", active)',
+              'resources == at_entry("1.3", resources)', 'same_fate(fate, at_entry("1.3", fate))',
+              'unscheduled == at_entry("1.3", unscheduled)',
+              'forall(lambda k: implies(0 <= k < len(scheduled), at(fate, scheduled[k].uid) == F_NONE))',
+              'len(scheduled) == len(at_entry("1.3", scheduled))',
+              'forall(lambda k: implies(0 <= k < len(scheduled), scheduled[k].uid == at_entry("1.3", scheduled)[k].uid and '
+              'scheduled[k].slots == at_entry("1.3", scheduled)[k].slots and scheduled[k].description == at_entry("1.3", scheduled)[k].description '
+              'and scheduled[k].state == at_entry("1.3", scheduled)[k].state))'],
+    },
+    opts   = dict(merge='scalars', parallel=10),
+    serves = ['C04'])
+
+
+# ------------------------------------------------------------------------------
+# the main loop of _schedule_tasks: the `resources` flag.  Ghost `owed`: a release
+# was seen (by _unschedule_completed, whose verified contract says it reports new
+# resources iff it released something) and the wait pool has not been scanned
+# since.  The loop must not start an iteration with a scan owed and the flag off.
+def _l_waitpool(ex, node, st):
+    st.env['owed'] = C.lift(False)
+    st.env['scans'] = Val(T.Int, ex.get_var(st, 'scans').term + 1)
+    return PyTuple([fresh(T.Bool, 'r_wait'), fresh(T.Bool, 'a_wait')])
+_l_waitpool.mutates = ('owed', 'scans')
+
+def _l_incoming(ex, node, st):
+    nothing = z3.Bool(C.fresh_name('no_incoming'))
+    r = fresh(T.Opt(T.Bool), 'r_inc'); a = fresh(T.Bool, 'a_inc')
+    # contract of _schedule_incoming: (None, False) when nothing arrived, else (bool, True)
+    st.assume(z3.If(nothing, z3.And(r.ty.is_none(r.term), z3.Not(a.term)), z3.And(r.ty.is_some(r.term), a.term)))
+    return PyTuple([r, a])
+_l_incoming.mutates = ()
+
+def _l_unschedule(ex, node, st):
+    r = fresh(T.Bool, 'r_rel'); a = fresh(T.Bool, 'a_rel')
+    st.assume(z3.Implies(r.term, a.term))
+    owed = ex.get_var(st, 'owed')
+    st.env['owed'] = Val(T.Bool, z3.Or(owed.term, r.term))
+    return PyTuple([r, a])
+_l_unschedule.mutates = ('owed',)
+
+REG.spec('agent/scheduler/base.py:AgentSchedulingComponent._schedule_tasks#loop',
+    fragment = 'while not self._term.is_set():',
+    params   = dict(resources=T.Bool),
+    self     = dict(_waitpool=WPool),
+    ghost    = dict(owed=T.Bool, scans=T.Int),
+    locals   = dict(active=T.Int, r_wait=T.Bool, r_inc=T.Opt(T.Bool), r=T.Bool, a=T.Bool),
+    calls    = {'self._term.is_set': nondet_bool, 'self._schedule_waitpool': _l_waitpool,
+                'self._schedule_incoming': _l_incoming, 'self._unschedule_completed': _l_unschedule},
+    effects  = {'time.sleep': ignore_call},
+    requires = ['implies(owed, resources)'],
+    modifies = ['resources', 'owed', 'scans'],
+    raises   = {},
+    ensures  = [('no-scan-is-owed-with-the-flag-off', 'implies(owed, resources)')],
+    loops = {'1': [('a-release-is-followed-by-a-wait-pool-scan-in-the-next-iteration', 'implies(owed, resources)', 'dsinv'),
+                   'scans >= old(scans)']},
+    serves = ['C04'])
